@@ -852,6 +852,9 @@ def main():
             raise ValueError("'-pid' option is required")
         if path is None:
             raise ValueError("'-path' option is required")
+        # Command line values are strings, the expected object size must be an integer
+        if size is not None:
+            size = int(size)
         # Store object to HashStore
         object_metadata = hashstore_c.hashstore.store_object(
             pid, path, algorithm, checksum, checksum_algorithm, size
